@@ -46,7 +46,8 @@ def main(tier):
         h["c14"] = True
         h["label"] = "s" + h["label"]
     hres = sessions.run(hs)
-    common.judge(chk, hres, "TraceMonAnswers", "TraceMonAnswers.cfg", "answers:scripted", key="C14")
+    # (only the first sentence of the property for these: a scripted peer's query may be one the server drops unanswered)
+    common.judge(chk, hres, "TraceMonAnswers", "TraceMonAnswers_lax.cfg", "answers:scripted", key="C14")
     chk.cov["scripted_histories"] = len(hres)
     chk.cov["scripted_answers_judged"] = sum(r["stats"].get("answers", 0) for r in hres)
     chk.cov["evaluations"] = sum(r["stats"].get("answers", 0) for r in results)
